@@ -1,2 +1,9 @@
 import AgdbStorage.Props.C04
 open AgdbStorage
+#print axioms C04_refines
+#print axioms C04_read_back
+#print axioms C04_removed_unreadable
+#print axioms C04_frame
+#print axioms C04_optimize
+#print axioms C04_reopen
+#print axioms C04_invariant
